@@ -42,8 +42,15 @@ Record world := {
   registry : list (ustring * ustring);     (* "2.1/objects/identity" -> class *)
   det_id : list ustring;                   (* 2.1 observable classes (deterministic id written into _inner) *)
   defaults : list (ustring * list (ustring * atom));  (* class -> properties with a `default` (all immutable values) *)
-  defn_classes : list (ustring * list (ustring * ustring))
+  defn_classes : list (ustring * list (ustring * ustring));
      (* MarkingDefinition classes -> OBJ_MAP_MARKING (definition_type -> marking class) *)
+  with_ext : list (ustring * ustring);
+     (* custom 2.1 classes declared with extension_name= -> that extension id *)
+  observables : list ustring;
+     (* subclasses of base._Observable: `self.__valid_refs = kwargs.pop('_valid_refs', [])` *)
+  keep_in_bundle : list ustring
+     (* classes STIXObjectProperty.clean keeps as they are: _DomainObject / _RelationshipObject /
+        MarkingDefinition in the class hierarchy (an observable is re-parsed from dict(value)) *)
 }.
 
 Fixpoint lookup {A : Type} (k : ustring) (m : list (ustring * A)) : option A :=
@@ -258,7 +265,8 @@ Section Interp.
                      else if is_obj h v then (h, RVal v) else (h, RExc "ValueError")
     | KExt v21 => clean_ext v21 v h
     | KObs v21 => clean_obs v21 v h
-    | KStixObj => if is_obj h v then (h, RVal v)
+    | KStixObj => if match class_of h v with Some c => mem_ustr c (keep_in_bundle W) | None => false end
+                  then (h, RVal v)
                   else bindv (get_dict v h) (fun d h0 => rec (QParse d None true) h0)
     end.
 
@@ -305,10 +313,79 @@ Section Interp.
         let h3 := if mem_ustr c (det_id W) && negb (match assoc (u "id") m with Some _ => true | None => false end)
                   then match set_item h2 s (u "id") (VA (AStr (u "<deterministic-id>"))) with Some h' => h' | None => h2 end
                   else h2 in
-        let fields := (u "_inner", VR s) ::
-                      match assoc (u "_valid_refs") m with Some r => [(u "_valid_refs", r)] | None => [] end in
-        let (h4, o) := alloc h3 (NObj c fields) in
+        (* base._Observable.__init__: the given `_valid_refs`, or a new empty list *)
+        let (h3', vrf) := match assoc (u "_valid_refs") m with
+                          | Some r => (h3, [(u "_valid_refs", r)])
+                          | None => if mem_ustr c (observables W)
+                                    then let (hh, l) := alloc h3 (NList []) in (hh, [(u "_valid_refs", VR l)])
+                                    else (h3, [])
+                          end in
+        let (h4, o) := alloc h3' (NObj c ((u "_inner", VR s) :: vrf)) in
         (h4, RVal (VR o))).
+
+  (* stix2/custom.py, _custom_object_builder / _custom_observable_builder, after the base __init__:
+       ext = getattr(self, 'with_extension', None)
+       if ext and version != '2.0':
+           if 'extensions' not in self._inner:
+               _insert_in_property_order(self, 'extensions', {})     # a NEW inner dict: obj._inner = inner
+           self._inner['extensions'][ext] = class_for_type(ext, version, "extensions")()
+     The write goes into the dict STORED in the object: the one ExtensionsProperty.clean returned. *)
+  Definition ext_step (ext : ustring) (ov : val) (h : heap) : heap * res :=
+    match ov with
+    | VA _ => (h, RExc "TypeError")
+    | VR o =>
+      match get h o with
+      | Some (NObj _ fs) =>
+        match assoc (u "_inner") fs with
+        | Some (VR s) =>
+          match get h s with
+          | Some (NDict m) =>
+            let st := match assoc (u "extensions") m with
+                      | Some x => Some (h, x)
+                      | None =>
+                        let (ha, e) := alloc h (NDict []) in
+                        let (hb, s') := alloc ha (NDict (m ++ [(u "extensions", VR e)])) in   (* position not modelled *)
+                        match set_field hb o (u "_inner") (VR s') with
+                        | Some hc => Some (hc, VR e)
+                        | None => None
+                        end
+                      end in
+            match st with
+            | None => (h, RExc "TypeError")
+            | Some (h1, VA _) => (h1, RExc "TypeError")
+            | Some (h1, VR x) =>
+              match class_for_type W ext true "extensions" with
+              | None => (h1, RExc "TypeError")
+              | Some ec =>
+                let (h2, k) := alloc h1 (NDict []) in
+                bindv (rec (QConstruct ec (VR k)) h2) (fun eo h3 =>
+                  match set_item h3 x ext eo with
+                  | Some h4 => (h4, RVal ov)
+                  | None => (h3, RExc "TypeError")
+                  end)
+              end
+            end
+          | _ => (h, RExc "TypeError")
+          end
+        | _ => (h, RExc "TypeError")
+        end
+      | _ => (h, RExc "TypeError")
+      end
+    end.
+
+  (* the class's __init__: the base constructor, then the custom-type step; the `extensions`
+     property of such a class is an ExtensionsProperty (the decorators add it; the translator
+     refuses a world in which it is not) *)
+  Definition construct_full (c : ustring) (sch : schema) (m : list (ustring * val)) (h : heap) : heap * res :=
+    bindv (construct_body c sch m h) (fun ov h1 =>
+      match lookup c (with_ext W) with
+      | None => (h1, RVal ov)
+      | Some ext =>
+        match lookup (u "extensions") sch with
+        | Some (KExt _) => ext_step ext ov h1
+        | _ => (h1, RExc "Unmodelled")
+        end
+      end).
 
   (* MarkingDefinition.__init__ (v20/v21 common.py): when both definition_type and
      definition are given and the definition is not yet an instance of the marking class,
@@ -320,7 +397,7 @@ Section Interp.
     | _, None => (h, RExc "TypeError")
     | Some sch, Some m =>
       match lookup c (defn_classes W) with
-      | None => construct_body c sch m h
+      | None => construct_full c sch m h
       | Some table =>
         match assoc (u "definition_type") m, assoc (u "definition") m with
         | Some dt, Some dv =>
@@ -328,12 +405,12 @@ Section Interp.
           | None => (h, RExc "ValueError")
           | Some mc =>
             if match class_of h dv with Some c' => ustr_eqb c' mc | None => false end
-            then construct_body c sch m h
+            then construct_full c sch m h
             else bindv (get_dict dv h) (fun d h0 =>
                  bindv (rec (QConstruct mc d) h0) (fun o h1 =>
-                   construct_body c sch (assoc_set (u "definition") o m) h1))
+                   construct_full c sch (assoc_set (u "definition") o m) h1))
           end
-        | _, _ => construct_body c sch m h
+        | _, _ => construct_full c sch m h
         end
       end
     end.
